@@ -165,6 +165,9 @@ func runDescribe(rng *rand.Rand, dc describeCase, can *mon.Canary) {
 	}
 	elapsed := retAt.Sub(t0)
 	close(done)
+	if elapsed > dc.Timeout+15*time.Millisecond {
+		can.Settle()
+	}
 	stall := can.StallSince(callStart)
 	slack := 3*stall + 20*time.Millisecond
 	// expected: the first description response sent by the queried address clearly before the deadline
@@ -310,7 +313,7 @@ func describeCases(rng *rand.Rand, n int) []describeCase {
 		svc := []uint16{spec.SvcConnStateRes, spec.SvcSearchRes, spec.SvcTunnelReq, spec.SvcConnRes, spec.SvcRoutingInd, spec.SvcDescrReq}[rng.Intn(6)]
 		return gen.Frame(rng, svc, -1).Encode()
 	}
-	malformed := func() []byte {
+	malformed1 := func() []byte {
 		d := descrFrame(rng, 999)
 		switch rng.Intn(4) {
 		case 0:
@@ -323,6 +326,19 @@ func describeCases(rng *rand.Rand, n int) []describeCase {
 		default:
 			d[0] = 5
 			return d
+		}
+	}
+	malformed := func() []byte {
+		for {
+			b := malformed1()
+			// a truncation at a DIB boundary is still a well-formed description response
+			var svc knxnet.Service
+			if _, err := knxnet.Unpack(append([]byte(nil), b...), &svc); err == nil {
+				if _, isDescr := svc.(*knxnet.DescriptionRes); isDescr {
+					continue
+				}
+			}
+			return b
 		}
 	}
 	var out []describeCase
@@ -518,6 +534,9 @@ func runDiscover(rng *rand.Rand, id int, timeout time.Duration, responders int, 
 	elapsed := retAt.Sub(callStart)
 	nDiscover++
 	r.Eval(1)
+	if elapsed > timeout+15*time.Millisecond {
+		can.Settle()
+	}
 	stall := can.StallSince(callStart)
 	slack := 3*stall + 20*time.Millisecond
 	cs := map[string]interface{}{"scenario": sig, "group": group, "elapsed_ms": float64(elapsed) / 1e6, "sent": len(seq), "returned": len(res)}
